@@ -628,8 +628,15 @@ class Gen:
             return None
         tv = self.derive(src)
         tv.limit = True
-        self.stmts.append(dict(id=tv.tid, op="slice_head", src=src.tid, n=r.choice([1, 2, 3, 5, 100]), offset=r.choice([0, 0, 1, 2, 4])))
+        self.stmts.append(dict(id=tv.tid, op="slice_head", src=src.tid, n=r.choice([0, 1, 2, 3, 5, 100]), offset=r.choice([0, 0, 1, 2, 4])))
         self.register(tv)
+        if r.random() < 0.3:
+            # a second window directly on top of the first (limit/offset composition, possibly empty)
+            tv2 = self.derive(tv)
+            tv2.limit = True
+            self.stmts.append(dict(id=tv2.tid, op="slice_head", src=tv.tid, n=r.choice([0, 1, 2, 3]), offset=r.choice([0, 1, 2, 3])))
+            self.register(tv2)
+            return tv2
         return tv
 
     def v_group_by(self, src: TV):
